@@ -20,7 +20,14 @@ from fuzzylite.library import representation
 PID = "C15"
 MODULES = ["FlVerif.Props.C15"]
 NAMESPACE = "C15"
-TIE_A = ["Tables.export", "code:fuzzylite.library.Representation.construction_arguments"]
+TIE_A = ["Tables.export", "code:fuzzylite.library.Representation.construction_arguments",
+         "code:fuzzylite.library.Representation.package_of", "code:fuzzylite.library.Representation.import_statement",
+         "code:fuzzylite.library.Representation.as_constructor", "code:fuzzylite.library.Representation.repr",
+         "code:fuzzylite.library.Representation.repr1", "code:fuzzylite.library.Representation.repr_float",
+         "code:fuzzylite.library.Representation.repr_ndarray", "code:fuzzylite.rule.Rule.__repr__",
+         "code:fuzzylite.rule.RuleBlock.__repr__", "code:fuzzylite.variable.Variable.__repr__",
+         "code:fuzzylite.variable.OutputVariable.__repr__", "code:fuzzylite.exporter.PythonExporter.encapsulate",
+         "code:fuzzylite.exporter.PythonExporter.to_string", "code:fuzzylite.exporter.PythonExporter.engine"]
 RULE = ("the generated engines of C14 with arbitrary finite double term / range / threshold / default parameters, inf / NaN "
         "values, quotes and backslashes in descriptions, rule weights on the decimals grid or arbitrary x alias in {'fl', '', '*', "
         "custom} x {plain repr, encapsulated (PythonExporter)} x {formatted by black, not} x input rows; every component "
